@@ -13,8 +13,9 @@ EXPLANATION = (
 
 def run(ctx):
     ctx.uses('simulator')
+    # first: state shared between simulator objects (it makes every later anchor meaningless, so it is reported even when they vanish)
+    S.shared_state(ctx, None, 'R3.5')
     sc = S.SimCtx(ctx.prog)
-    S.shared_state(ctx, sc, 'R3.5')
     S.r31_horizon(ctx, sc)
     S.r32_ending(ctx, sc)
     S.r33_pop_horizon(ctx, sc)
